@@ -54,6 +54,16 @@ def job_for(jid, v, mode, filedir=None):
 
 def compare(v, res, first):
     rs = res["results"]
+    if "patcher" in v["imports"]:
+        # (patcher) assigns names it imported.  The statement does not say that a library MAY do so (R7RS calls it an error):
+        # an implementation that refuses - when the library is loaded, or when patch! runs - is not judged on that history
+        refused = first < len(rs) and rs[first].get("k") == "error"
+        for k, h in enumerate(v["hist"]):
+            at = first + 1 + k
+            if S.render(h["form"]) == "(patch!)" and at < len(rs) and rs[at].get("k") == "error":
+                refused = True
+        if refused:
+            return None
     if first >= len(rs) or rs[first].get("k") != "none":
         return "the import declaration %s failed: %s" % (import_text(v["imports"], v["prefixes"]), json.dumps(rs[first] if first < len(rs) else rs[-1])[:300])
     for k, h in enumerate(v["hist"]):
